@@ -27,7 +27,10 @@ THEOREMS = ["Yardl.C06.verdict_total", "Yardl.C06.primitive_change_table", "Yard
             "Yardl.C06.primitive_change_classes", "Yardl.C06.primitive_change_error_symmetric", "Yardl.C06.wrappers_preserve_errors",
             "Yardl.C06.compare_reflexive", "Yardl.C06.well_formedness_is_needed", "Yardl.C06.identical_versions_are_silent",
             "Yardl.C06.removing_a_step_is_rejected", "Yardl.C06.appending_a_step", "Yardl.C06.optional_and_mandatory", "Yardl.C06.dimensioned_optional_rejected",
-            "Yardl.C06.union_case_added_or_removed", "Yardl.C06.adding_a_field", "Yardl.C06.removing_a_field"]
+            "Yardl.C06.union_case_added_or_removed", "Yardl.C06.adding_a_field", "Yardl.C06.removing_a_field",
+            "Yardl.C06.reordering_fields", "Yardl.C06.inserting_a_step", "Yardl.C06.moving_a_step_is_rejected", "Yardl.C06.changing_an_enum_definition",
+            "Yardl.C06.adding_enum_symbols_is_silent", "Yardl.C06.scalar_to_vector_or_array", "Yardl.C06.changing_type_arguments", "Yardl.C06.optional_and_union",
+            "Yardl.C06.reordering_union_cases"]
 
 SEV = {"ok": 0, "warn": 1, "err": 2}
 
